@@ -71,7 +71,8 @@ class BitBuffer:
 
     def flush(self) -> None:
         if self._type is not None:
-            self._type._write(self.stream, self._buffer)
+            # Write the raw storage unit; going through a signed type would reject units with the top bit set
+            self.stream.write(self._buffer.to_bytes(self._type.size, "little" if self.endian == "<" else "big"))
         self._type = None
         self._remaining = 0
         self._buffer = 0
